@@ -24,6 +24,13 @@ import wbx  # noqa: E402
 
 REPO = os.environ.get("WBX_REPO", "/repo")
 BUILD = os.path.join(ROOT, "build")
+if os.environ.get("WBX_BUILD"):
+    BUILD = os.environ["WBX_BUILD"]
+elif os.environ.get("WBX_REPO"):
+    # runs against a scratch copy of the sources (mutation tests) must not share generated files with a run on /repo
+    BUILD = os.path.join(ROOT, "build", "scratch-%d" % os.getpid())
+    import atexit, shutil
+    atexit.register(lambda: shutil.rmtree(BUILD, ignore_errors=True))
 UNITS = json.load(open(os.path.join(ROOT, "contracts", "units.json")))
 VERUS = ["verus", "--edition", "2024"]
 
